@@ -81,6 +81,34 @@ PROPS = {
         "level_note": VERUS_TRUST + "shim: str < str is byte-wise lexicographic (assumed std contract); contracts of DeweyVersion::new, dewey_cmp, "
                       "PkgName::new/pkgversion imported from the units that prove them (run in the same check). Reduction lemma is stated over matching candidates.",
     },
+    "C08": {
+        "units": ["summary"],
+        "design_ref": "DESIGN.md section 8 / C08",
+        "replay": "summary",
+        "level_text": "Unbounded proof on the real functions: Summary::from_str returns exactly parse_entry(text): a fold over the lines "
+                      "(value = everything after the first '=', single-valued variables overwrite, multi-line variables accumulate in input "
+                      "order, FILE_SIZE/SIZE_PKG must be i64 text), failing with ParseLine / ParseVariable / ParseInt at the first offending "
+                      "line, then Incomplete(first missing of the eleven required variables); SummaryVariable::from_str is proved to be the "
+                      "23-name table; is_completed == all eleven present; the 23 setters, 6 pushers and 25 getters each touch exactly their "
+                      "own variable (view == old view updated at that key) and keep the representation invariant.",
+        "level_note": VERUS_TRUST + "vstd HashMap specs + axiom that the derived Hash/Eq of SummaryVariable obey the key model; shims: str::lines, "
+                      "splitn(2,'='), parse::<i64> (signed decimal text within range); `?` with conversion written out (D14). Public methods "
+                      "carry `requires wf()`: the representation invariant is established by new()/default() and preserved by every method.",
+    },
+    "C09": {
+        "units": ["summary"],
+        "design_ref": "DESIGN.md section 8 / C09",
+        "replay": "summary",
+        "level_text": "Proof per call: SummaryStream::write (real code) is proved equal to write_spec on the abstract state (buffer bytes, "
+                      "entry views): usable UTF-8 prefix (an incomplete trailing character is kept, a definitely invalid sequence is "
+                      "InvalidData), cut after the last blank-line separator, every completed record parsed with Summary::from_str, "
+                      "Ok(all input consumed) with the remainder buffered, or InvalidData with exactly the entries before the first bad record. "
+                      "Independence of the chunking (a property of write_spec over all partitions) is NOT yet a lemma: it is checked by the "
+                      "bounded search of the replay crate (every single cut, random double cuts, byte-at-a-time) - labelled bounded.",
+        "level_note": VERUS_TRUST + "assumed contracts: str::from_utf8 / Utf8Error::{valid_up_to,error_len} (error_len None == incomplete trailing "
+                      "character, an uninterpreted predicate), rfind(\"\\n\\n\"), str::get, split_terminator, Vec::split_off/extend_from_slice (vstd), "
+                      "io::Error::new (payload dropped by the shim).",
+    },
     "C14": {
         "units": ["plist"],
         "design_ref": "DESIGN.md section 8 / C14",
@@ -110,7 +138,7 @@ PROPS = {
                       "text is the rewritten form; OsString shims (push, to_os_string, to_string_lossy().ends_with('/')).",
     },
     "C18": {
-        "units": ["pkgname", "dewey"],
+        "units": ["pkgname", "dewey", "summary"],
         "always_devs": ["letter_value_is_ascii_code"],
         "design_ref": "DESIGN.md section 8 / C18",
         "replay": "pkgname",
@@ -119,7 +147,7 @@ PROPS = {
                       "version contains no 'nb'; lemma_tok_rev proves by induction over the tokeniser that this N is the revision "
                       "vtok extracts, and DeweyVersion::new is proved equal to vtok (unit dewey).",
         "level_note": VERUS_TRUST + "shims (assumed std contracts) for rsplit_once(char), rsplit_once(\"nb\"), parse::<i64>, String::from, "
-                      "Option::or. The Summary::pkgbase()/pkgversion() accessors are covered by unit summary_accessors when listed in coverage.",
+                      "Option::or, rfind(char); Summary::pkgbase()/pkgversion() are proved (unit summary) to return base_of/version_of of PKGNAME exactly when both parts are non-empty.",
     },
 }
 
